@@ -111,6 +111,11 @@ def catalogue(n, origin=0, rng=None):
     out.append(SpanSpec('list[str] look-alikes', (lambda a=tricky: list(a)), [[x] for x in tricky], list(tricky_absent)))
     out.append(SpanSpec('ndarray[str] look-alikes', (lambda a=tricky: np.array(a)), [[x] for x in tricky], list(tricky_absent)))
     out.append(SpanSpec('pd.Index[str] look-alikes', (lambda a=tricky: pd.Index(a)), [[x] for x in tricky], list(tricky_absent)))
+    # booleans (a two-period span), and a tuple whose labels are themselves tuples
+    if n == 2:
+        out.append(SpanSpec('list[bool]', (lambda: [False, True]), [[False], [True]], ['False', 2, None, (False,)]))
+    tt = [(2000 + i // 4, i % 4 + 1) for i in range(n)]
+    out.append(SpanSpec('tuple[tuple]', (lambda a=tt: tuple(a)), [[x] for x in tt], [(1999, 4), (2000,), 2000, '(2000, 1)']))
     # floats, and huge negative integers
     fl = [0.5, 1.5, -2.25, 3.5, 1e10, 7.0, 8.125, -0.75][:n]
     out.append(SpanSpec('list[float]', (lambda a=fl: list(a)), [[x] for x in fl], [0.25, 7.000001, '0.5', 1e10 + 2048.0]))
